@@ -427,6 +427,7 @@ class Builder:
 
     def __init__(self, path, fmt="2a"):
         self.wt = make_tree(path, fmt)
+        self.wt.branch.nick = "trunk"      # the directory name must not leak into the revision properties
         self.cur = None          # abstract state of the working tree; None = freshly initialised
         self.by_id = {}
 
@@ -791,60 +792,115 @@ def tamper_bundle(sc, base, target, ver, data, rng, out, n):
         tamper_exact(sc, base, target, ver, data, pos, new, out)
 
 
-def tamper_exact(sc, base, target, ver, data, pos, new, out):
+TAMPER_TIMEOUT = 60
+
+
+def _tamper_child(sc, base, target, ver, mutated):
+    """read + install the mutated bundle; -> (kind, detail): raised / identical / silent"""
     from io import BytesIO
     from breezy.bzr.bundle.serializer import read_bundle
     repo, src, fmt = sc["repo"], sc["state"], sc["fmt"]
-    cnt = out["count"]
-    old = data[pos]
-    mutated = data[:pos] + bytes([new]) + data[pos + 1:]
-    case = dict(scenario=sc["key"], base=base.decode(), target=target.decode(), ver=ver, tamper=[pos, new])
-    out["cases"].append((case, True))
     T = new_repo(fmt)
     if base != NULL:
         T.fetch(repo, revision_id=base)
     T = T.controldir.open_repository()
     tdir = T.controldir.root_transport.local_abspath(".")
     try:
-        info = read_bundle(BytesIO(mutated))
-        info.install_revisions(T)
-    except BaseException as e:
-        if isinstance(e, (KeyboardInterrupt, SystemExit)):
-            raise
-        cnt["tamper:v%s:raised:%s" % (ver, type(e).__name__)] += 1
+        try:
+            info = read_bundle(BytesIO(mutated))
+            info.install_revisions(T)
+        except BaseException as e:
+            if isinstance(e, (KeyboardInterrupt, SystemExit)):
+                raise
+            return ("raised", type(e).__name__)
+        T = T.controldir.open_repository()
+        post = read_state(T)
+        with T.lock_read(), repo.lock_read():
+            for rid in sorted(post["revs"]):
+                if rid not in src["revs"]:
+                    return ("silent", "revision %r, which the source does not have, was installed" % rid)
+                if post["revs"][rid] != src["revs"][rid]:
+                    return ("silent", "revision %s was installed with different metadata" % rid.decode())
+                try:
+                    if testament_text(T, rid) != testament_text(repo, rid):
+                        return ("silent", "revision %s was installed with a different testament" % rid.decode())
+                except Exception as e:
+                    return ("silent", "revision %s was installed but its testament cannot be computed (%s)" % (
+                        rid.decode(), type(e).__name__))
+                for fid, e in post["invs"].get(rid, {}).items():
+                    if e[1] == "file" and post["texts"].get((fid, e[4])) != src["texts"].get((fid, e[4])):
+                        return ("silent", "text (%s, %s) was installed with different content" % (fid.decode(), e[4].decode()))
+        return ("identical", "")
+    finally:
         shutil.rmtree(tdir, ignore_errors=True)
-        return
-    T = T.controldir.open_repository()
-    post = read_state(T)
-    silent = None
-    with T.lock_read(), repo.lock_read():
-        for rid in sorted(post["revs"]):
-            if rid not in src["revs"]:
-                silent = "revision %r, which the source does not have, was installed" % rid
-                break
-            if post["revs"][rid] != src["revs"][rid]:
-                silent = "revision %s was installed with different metadata" % rid.decode()
-                break
+
+
+def tamper_exact(sc, base, target, ver, data, pos, new, out):
+    """one mutated bundle, read in a forked child so that a reader that never returns (the loop is in
+    compiled code and ignores Python-level alarms) can be killed and reported"""
+    import json
+    import select
+    import signal
+    cnt = out["count"]
+    old = data[pos]
+    mutated = data[:pos] + bytes([new]) + data[pos + 1:]
+    case = dict(scenario=sc["key"], base=base.decode(), target=target.decode(), ver=ver, tamper=[pos, new])
+    out["cases"].append((case, True))
+    r, w = os.pipe()
+    pid = os.fork()
+    if pid == 0:
+        code = 0
+        try:
+            os.close(r)
+            res = _tamper_child(sc, base, target, ver, mutated)
+            os.write(w, json.dumps(res).encode())
+        except BaseException as e:
             try:
-                if testament_text(T, rid) != testament_text(repo, rid):
-                    silent = "revision %s was installed with a different testament" % rid.decode()
-                    break
-            except Exception as e:
-                silent = "revision %s was installed but its testament cannot be computed (%s)" % (rid.decode(), type(e).__name__)
-                break
-            for fid, e in post["invs"].get(rid, {}).items():
-                if e[1] == "file" and post["texts"].get((fid, e[4])) != src["texts"].get((fid, e[4])):
-                    silent = "text (%s, %s) was installed with different content" % (fid.decode(), e[4].decode())
-                    break
-            if silent:
-                break
-    if silent:
+                os.write(w, json.dumps(("crash", repr(e)[:200])).encode())
+            except Exception:
+                pass
+            code = 1
+        finally:
+            os._exit(code)
+    os.close(w)
+    ready, _, _ = select.select([r], [], [], TAMPER_TIMEOUT)
+    if not ready:
+        os.kill(pid, signal.SIGKILL)
+        os.waitpid(pid, 0)
+        os.close(r)
+        keep = os.path.join("/var/tmp", "c40-nonterminating-bundle-%s-%d-%d.bin" % ("-".join(map(str, sc["key"])), pos, new))
+        try:
+            with open(keep, "wb") as f:
+                f.write(mutated)
+        except OSError:
+            keep = "(not saved)"
+        fam = "tampered-v4-bundle-container-reader-does-not-terminate" if ver == "4" else None
+        out["viol"].append((case, "reading / installing a v%s bundle with byte %d changed from %#x to %#x does not "
+                                  "terminate within %d s (mutated bundle saved as %s)" % (ver, pos, old, new, TAMPER_TIMEOUT, keep), fam))
+        cnt["tamper:v%s:DOES-NOT-TERMINATE" % ver] += 1
+        return
+    buf = b""
+    while True:
+        chunk = os.read(r, 65536)
+        if not chunk:
+            break
+        buf += chunk
+    os.close(r)
+    os.waitpid(pid, 0)
+    try:
+        kind, detail = json.loads(buf.decode())
+    except Exception:
+        kind, detail = "crash", "child gave no result"
+    if kind == "raised":
+        cnt["tamper:v%s:raised:%s" % (ver, detail)] += 1
+    elif kind == "identical":
+        cnt["tamper:v%s:accepted-identical" % ver] += 1
+    elif kind == "silent":
         out["viol"].append((case, "a v%s bundle with byte %d changed from %#x to %#x is accepted: %s" % (
-            ver, pos, old, new, silent), None))
+            ver, pos, old, new, detail), None))
         cnt["tamper:v%s:SILENT" % ver] += 1
     else:
-        cnt["tamper:v%s:accepted-identical" % ver] += 1
-    shutil.rmtree(tdir, ignore_errors=True)
+        raise RuntimeError("tamper child failed: %s" % detail)
 
 
 # ------------------------------------------------------------------ merge from a bundle vs merge from the branch
